@@ -1098,7 +1098,20 @@ impl Planner {
         let node_list_op = Box::new(NodeListOperator::new(matching_nodes, 2048));
         let columns = vec![scan_variable];
 
-        Ok(Some((node_list_op, columns)))
+        // The index only narrows the candidates to the nodes satisfying the equality
+        // conjuncts. Re-apply the whole predicate on top, so that conjuncts the index
+        // cannot serve (ranges, inequalities, OR, IS NULL, ...) still hold.
+        let variable_columns: HashMap<String, usize> = columns
+            .iter()
+            .enumerate()
+            .map(|(i, name)| (name.clone(), i))
+            .collect();
+        let filter_expr = self.convert_expression(&filter.predicate)?;
+        let predicate =
+            ExpressionPredicate::new(filter_expr, variable_columns, Arc::clone(&self.store));
+        let operator = Box::new(FilterOperator::new(node_list_op, Box::new(predicate)));
+
+        Ok(Some((operator, columns)))
     }
 
     /// Extracts equality conditions (property = literal) from a predicate.
